@@ -27,10 +27,15 @@ def build_engine(src, variant, prec, extra_flags=(), extra_srcs=(), opt='-O1'):
     outd = os.path.join(vlib.BUILD, 'bin'); os.makedirs(outd, exist_ok=True)
     exe = os.path.join(outd, '%s-%s-%s-%s' % (os.path.basename(src)[:-2], variant, prec, key))
     if os.path.exists(exe):
+        try: os.utime(exe, None)        # mark as in use: eviction goes by age
+        except OSError: pass
         return exe
     olds = sorted((o for o in glob.glob(os.path.join(outd, '%s-%s-%s-*' % (os.path.basename(src)[:-2], variant, prec))) if '.tmp' not in o), key=os.path.getmtime)
-    for old in olds[:-3]:
-        try: os.unlink(old)
+    # evict only what is both beyond the 6 most recent builds and unused for 6 hours: a long-running check of an older source state may still execute it
+    import time as _t
+    for old in olds[:-6]:
+        try:
+            if _t.time() - os.path.getmtime(old) > 6 * 3600: os.unlink(old)
         except OSError: pass
     cmd = [cc, opt, '-g', '-w', '-fno-omit-frame-pointer', PREC[prec]] + hflags + list(extra_flags) + inc + \
           ['-I' + os.path.join(ROOT, 'engines', 'common'), srcp] + extra + [lib] + vlib.LINK_EXTRA.get(variant, []) + ['-lm', '-lpthread', '-ldl', '-rdynamic', '-o', exe + '.tmp%d' % os.getpid()]
